@@ -108,6 +108,8 @@ def run(verbose=False):
         case("linalg_solve_mat", lambda: np.linalg.solve(SS, A), lambda: rnp.linalg.solve(S, a))
         case("clip", lambda: np.clip(V, -1.0, Wv), lambda: rnp.clip(v, -1.0, w))
         case("where", lambda: np.where(V > 0, V, Wv), lambda: rnp.where(v > 0, v, w))
+        case("all", lambda: np.all(V), lambda: bool(rnp.all(v)))
+        case("any", lambda: np.any(V * 0.0), lambda: bool(rnp.any(v * 0.0)))
         case("isclose", lambda: np.isclose(V, V + 1e-9 * Wv), lambda: rnp.isclose(v, v + 1e-9 * w))
         case("isclose_far", lambda: np.isclose(V, Wv), lambda: rnp.isclose(v, w))
 
